@@ -77,6 +77,7 @@ impl<R: ReceiverStore<u8>> RendezvousShared<u8, R> {
   pub(crate) fn k_ns(&self) -> usize { self.core.lock().sender_waiters.len() }
   pub(crate) fn k_sender_ptr(&self, i: usize) -> *const AtomicU8 { self.core.lock().sender_waiters[i].state }
   pub(crate) fn k_counts(&self) -> (usize, usize) { let c = self.core.lock(); (c.sender_count, c.receiver_count) }
+  pub(crate) fn k_set_counts(&self, sc: usize, rc: usize) { let mut c = self.core.lock(); c.sender_count = sc; c.receiver_count = rc; }
   /// I-rv over the sender queue (the receiver stores are checked by the per-store helpers below).
   pub(crate) fn k_senders_wf(&self) -> bool {
     let c = self.core.lock();
